@@ -88,7 +88,7 @@ def entry_points(base: Base):
 
 def _validate_compact(t, k, a):
     j = J.load()
-    obj = j.jws.extract_compact(t.encode() if isinstance(t, str) else t)
+    obj = j.jws.extract_compact(t.encode() if isinstance(t, str) else bytes(t))   # extract_compact takes bytes
     if not j.jws.validate_compact(obj, k, algorithms=a):
         raise j.errors.BadSignatureError()
     return obj
@@ -758,6 +758,59 @@ def long_run_cases(mon: Monitor, ctx):
                       {"family": "long-run", "call": first[1], "token": first[2], "keys": [key], "allow": ["HS256"], "entry": "jws.deserialize_compact", "detail": "", "form": "compact"})
 
 
+def ecdsa_double_leading_zero(mon: Monitor, ctx, alg):
+    """a valid ECDSA signature whose R and S both start with a zero octet (one in 2^16 when left to chance) - made on purpose with a chosen
+    nonce - and every length fault on it: a verifier that tolerates shorter halves accepts the stripped form"""
+    import hashlib
+    from refjose.prim import CURVES, os2ip, i2osp
+    crv = {"ES256": "P-256", "ES256K": "secp256k1", "ES384": "P-384"}[alg]
+    c = CURVES[crv]
+    hname = {"ES256": "sha256", "ES256K": "sha256", "ES384": "sha384"}[alg]
+    key = key_for(alg)
+    d = os2ip(b64u_dec(key["d"]))
+    n = c.n
+    k = r = None
+    for i in range(1, 5000):
+        kk = (0x1234567 * i + 0x9E3779B97F4A7C15 * ctx.seed + 17) % (n - 1) + 1
+        rr = c.mul(kk, c.g)[0] % n
+        if rr and (rr >> (8 * (c.size - 1))) == 0:
+            k, r = kk, rr
+            break
+        if i % 64 == 0 and ctx.out_of_time():
+            break
+    if k is None:
+        ctx.count("ecdsa_double_zero_not_found")
+        return
+    p64 = b64u_enc(json.dumps({"alg": alg}, separators=(",", ":")).encode())
+    kinv = pow(k, -1, n)
+    for m in range(200000):
+        payload = b'{"n":%d}' % m
+        dig = hashlib.new(hname, (p64 + "." + b64u_enc(payload)).encode()).digest()
+        e = os2ip(dig)
+        shift = len(dig) * 8 - n.bit_length()
+        if shift > 0:
+            e >>= shift
+        sv = kinv * (e + r * d) % n
+        if sv and (sv >> (8 * (c.size - 1))) == 0:
+            break
+    else:
+        ctx.count("ecdsa_double_zero_not_found")
+        return
+    sig = i2osp(r, c.size) + i2osp(sv, c.size)
+    tok = f"{p64}.{b64u_enc(payload)}.{b64u_enc(sig)}"
+    base = Base("compact", tok, [key], payload, [{"alg": alg, "protected_octets": b"", "header": None, "kid": None}])
+    ctx.count("ecdsa_double_zero_bases")
+    run_base(mon, base, None, ctx, families={"ecdsa-stripped", "sig-truncate", "sig-extend", "ecdsa-padded", "sig-swap-rs", "sig-der", "bitflip-signature"})
+    # and every way of dropping leading zero octets from one or both halves
+    pubs = base.pub_jwks()
+    jkey, resolver = joserfc_key(pubs), ref_resolver(pubs)
+    h = len(sig) // 2
+    for name, alt in (("r-stripped", sig[1:h] + sig[h:]), ("s-stripped", sig[:h] + sig[h + 1:]), ("both-stripped", sig[1:h] + sig[h + 1:])):
+        t = f"{p64}.{b64u_enc(payload)}.{b64u_enc(alt)}"
+        for ep_name, ep in entry_points(base):
+            mon.judge(base, "ecdsa-stripped", name, t, jkey, resolver, [alg, "none"], ep_name, ep)
+
+
 def crit_nonstrict_cases(mon: Monitor, ctx):
     """RFC 7797 token (b64:false, crit) whose payload text is itself base64url, offered to the plain RFC 7515 entry points
     configured with strict_check_header=False: the signed payload is the text, so returning the decoded octets would be wrong."""
@@ -803,6 +856,10 @@ def plan(tier):
     items.append(("crit-nonstrict", "", 0))
     items.append(("many-signatures", "", 0))
     items.append(("long-run", "", 0))
+    items.append(("ecdsa-double-zero", "ES256", 0))
+    items.append(("ecdsa-double-zero", "ES256K", 0))
+    if tier == "thorough":
+        items.append(("ecdsa-double-zero", "ES384", 0))
     return items
 
 
@@ -862,6 +919,9 @@ def run_shard(ctx):
             continue
         if alg == "many-signatures":
             many_signatures_cases(mon, ctx)
+            continue
+        if alg == "ecdsa-double-zero":
+            ecdsa_double_leading_zero(mon, ctx, form)
             continue
         if alg == "long-run":
             mon.tr.stop()          # the tracer costs more than the calls here; the boundary verdict is what is judged
